@@ -99,20 +99,27 @@ Definition cos_lt (N A B kn kd : Z) : bool :=
        else (L <? 0) && (4 * sq kn * (A * B) <? sq L).
 
 (* ================================================================= fixed-point helpers (numerical) *)
-Definition SC : Z := 2 ^ 44.
+Definition SCBITS : Z := 44.
+Definition SC : Z := 2 ^ SCBITS.
 Definition fx_of_q (n d : Z) : Z := n * SC / d.
-Definition fx_mul (a b : Z) : Z := a * b / SC.
+Definition fx_mul (a b : Z) : Z := Z.shiftr (a * b) SCBITS.    (* floor (a*b / SC) *)
 Definition fx_div (a b : Z) : Z := a * SC / b.
 Definition fx_sqrt (a : Z) : Z := Z.sqrt (a * SC).
 Definition PI_fx : Z := 57952155664616982739 * SC / 2 ^ 64.   (* pi, from round(pi * 2^64) *)
 
-(* cos x = sum (-1)^k x^(2k)/(2k)!, 24 terms: enough for |x| <= pi *)
-Fixpoint cos_terms (k : nat) (i : Z) (x2 term : Z) : Z :=
-  match k with
-  | O => 0
-  | S k' => term + cos_terms k' (i + 2) x2 (- (fx_mul term x2) / ((i + 1) * (i + 2)))
-  end.
-Definition fx_cos (x : Z) : Z := cos_terms 24 0 (fx_mul x x) SC.
+(* cos x = sum (-1)^k x^(2k)/(2k)!, 16 terms (truncation error below 1e-13 for |x| <= pi), Horner form
+   with the coefficients (-1)^k SC/(2k)! tabulated once *)
+Fixpoint fact (n : nat) : Z := match n with O => 1 | S m => Z.of_nat n * fact m end.
+Definition CBITS : Z := 100.                 (* the series is summed at 2^-100 *)
+Definition cos_coeffs : list Z :=
+  Eval vm_compute in
+    (map (fun k => (if Nat.even k then 1 else -1) * (2 ^ CBITS / fact (2 * k))) (seq 0 16)).
+Definition fx_cos_n (terms : nat) (x : Z) : Z :=
+  let x2 := fx_mul x x in
+  Z.shiftr (fold_right (fun c acc => c + Z.shiftr (acc * x2) SCBITS) 0 (firstn terms cos_coeffs)) (CBITS - SCBITS).
+Definition fx_cos (x : Z) : Z := fx_cos_n 16 x.
+(* 11 terms: truncation error below 1e-16 for |x| <= 1.6 (the cone half-angle bound is below 1.52 rad) *)
+Definition fx_cos_small (x : Z) : Z := fx_cos_n 11 x.
 
 Definition deg_to_rad_fx (deg_n deg_d : Z) : Z := fx_mul (fx_of_q deg_n deg_d) (PI_fx / 180).
 
@@ -168,19 +175,22 @@ Record wn_params := mkWN {
   wn_const : Z * Z            (* 0.000044 nm / degree^2 *)
 }.
 
-(* delta = angle(H, D, A) at the donor, law of cosines with a = |AD|, b = |DH|, c = |HA|.
+(* delta = angle(H, D, A) at the donor, law of cosines with a = |DA| (the array of the stage-one mask is
+   reused by the code for this side), b = |DH|, c = |HA|.
    r_DA < cut - const * delta_deg^2   <=>   cut - r > 0  and  delta_deg < sqrt((cut - r)/const)
                                       <=>   ...        and  cos(delta) > cos(phi), phi = that bound in radians
    (delta in [0, pi], cos decreasing; phi < pi because cut/const < 180^2).  Fixed point, numerical. *)
 Definition wn_presence (p : wn_params) (f : frame) (t : triplet) : bool :=
   match t with (d, h, a) =>
-    let a2 := dist2 (wn_periodic p) f a d in
+    let a2 := dist2 (wn_periodic p) f d a in
+    (* r >= cut decided exactly first (also keeps the evaluation inside coqc cheap: let is eager) *)
+    if negb (dist_lt a2 (fst (wn_cut p) * wn_G p) (snd (wn_cut p))) then false
+    else
     let b2 := dist2 (wn_periodic p) f d h in
     let c2 := dist2 (wn_periodic p) f h a in
     let r_fx := fx_sqrt (a2 * SC) / wn_G p in                      (* |AD| in nm *)
     let slack := fx_of_q (fst (wn_cut p)) (snd (wn_cut p)) - r_fx in
-    if negb (dist_lt a2 (fst (wn_cut p) * wn_G p) (snd (wn_cut p))) then false   (* r >= cut, decided exactly *)
-    else if slack <=? 0 then false
+    if slack <=? 0 then false
     else if a2 * b2 <=? 0 then false
     else
       let x := fx_div slack (fx_of_q (fst (wn_const p)) (snd (wn_const p))) in   (* degrees^2 *)
@@ -188,7 +198,7 @@ Definition wn_presence (p : wn_params) (f : frame) (t : triplet) : bool :=
       if PI_fx <=? phi then true
       else
         let cosd := (a2 + b2 - c2) * SC * SC / (2 * Z.sqrt (a2 * b2 * SC * SC)) in
-        fx_cos phi <? cosd
+        (if 7 * SC <? 4 * phi then fx_cos phi else fx_cos_small phi) <? cosd
   end.
 
 (* distances(D,A) < 0.33 for the stage-one mask (freq = 0.0: in at least one frame) *)
